@@ -346,6 +346,7 @@ func build(s *core.Shard, i int) *Case {
 			}
 		}
 	}
+	laterLayer := ""
 	// a variable every included env file defines with its own value, read by a label in the main file
 	// through a default operator: an included project's env file must not leak into the main file
 	if svcs := nodes[0].res["services"]; len(svcs) > 0 {
@@ -356,6 +357,10 @@ func build(s *core.Shard, i int) *Case {
 		name := svcs[0]
 		addLabel(root.Sub["services"].Sub[name], "probe.leak", "main-default")
 		addLabel(dist.Sub["services"].Sub[name], "probe.leak", "${"+probe+":-main-default}")
+		// the same question asked by a later layer of the including project (an override file, or a
+		// second document of the main file), which is interpolated after the include entries were applied
+		addLabel(root.Sub["services"].Sub[name], "probe.leak.later", "later-default")
+		laterLayer = "services:\n  " + strconv.Quote(name) + ":\n    labels:\n      probe.leak.later: \"${" + probe + ":-later-default}\"\n"
 	}
 
 	// ---- secrets / configs sourced from an environment variable: some of the variables are set ------
@@ -713,7 +718,20 @@ func build(s *core.Shard, i int) *Case {
 		pastedEnv = merge(topEnv, pastedOnly)
 	}
 	c.Pasted = ld.Case{Files: merge(common, map[string]string{"proj/compose.yaml": pastedDoc}), Dirs: dirs, ComposeFiles: []string{"proj/compose.yaml"}, WorkingDir: "proj", Env: pastedEnv, Opts: opts}
-	c.Dist = ld.Case{Files: merge(common, distFiles), Dirs: dirs, ComposeFiles: []string{"proj/compose.yaml"}, WorkingDir: "proj", Env: topEnv, Opts: opts}
+	distCompose := []string{"proj/compose.yaml"}
+	if laterLayer != "" && variant == "plain" {
+		if i%2 == 0 {
+			distFiles["proj/compose.later.yaml"] = laterLayer
+			distCompose = append(distCompose, "proj/compose.later.yaml")
+			s.Cover("include-entry", "a later file of the including project asks for a variable of the included env")
+		} else {
+			distFiles["proj/compose.yaml"] += "---\n" + laterLayer
+			s.Cover("include-entry", "a later document of the including file asks for a variable of the included env")
+		}
+	} else if laterLayer != "" {
+		distFiles["proj/compose.yaml"] += "---\n" + strings.Replace(laterLayer, "${LEAK_PROBE:-later-default}", "later-default", 1)
+	}
+	c.Dist = ld.Case{Files: merge(common, distFiles), Dirs: dirs, ComposeFiles: distCompose, WorkingDir: "proj", Env: topEnv, Opts: opts}
 	var shape []string
 	for _, n := range nodes[1:] {
 		shape = append(shape, fmt.Sprintf("d%d/%s/%s", n.depth, n.pdMode, n.envMode))
